@@ -21,7 +21,10 @@ REPROS = {
         "    for _ in range(n): a = a.evolve(mpo, -1j*tau/n)\n"
         "    ref = sla.expm(-tau*H) @ psi; ref /= np.linalg.norm(ref)\n"
         "    return np.linalg.norm(dense(a) - ref)\n"
-        "e16, e32 = err(16), err(32)\n"
+        "try:\n"
+        "    e16, e32 = err(16), err(32)\n"
+        "except AssertionError as ex:\n"
+        "    print('imaginary-time CMF raises AssertionError: the midpoint environment was evolved in REAL time (complex) and is mixed into the real state'); sys.exit(1)\n"
         "print('imaginary-time CMF (midpoint, advertised 2nd order): error', e16, '->', e32, 'ratio', e16/e32, '(a 2nd-order scheme gives ~4)')\n"
         "try:\n"
         "    t = err(16, tdvp_cmf_c_trapz=True); print('trapezoid variant error', t); trapz_bad = t > 10*e16\n"
